@@ -13,10 +13,12 @@ cd /verif
 [ -z "$(git status --porcelain)" ] || { echo "/verif not clean"; exit 1; }
 git merge $REF -m "merge $G ($REF)" >/tmp/merge_$G.log 2>&1 || true
 for f in $(git diff --name-only --diff-filter=U); do
-  case $f in evidence/*) git checkout --ours $f; git add $f;; *) echo "CONFLICT $f";; esac
+  case $f in evidence/*|MANIFEST.json|seeded/README.md) git checkout --ours $f; git add $f;; *) echo "CONFLICT $f";; esac
 done
 if [ -n "$(git diff --name-only --diff-filter=U)" ]; then echo "UNRESOLVED CONFLICTS - resolve, then git commit; do NOT git add -A blindly"; exit 3; fi
 git commit -qm "merge $G ($REF)" 2>/dev/null || true
 python3 tools/tagfiles.py
+./check manifest
+git add MANIFEST.json && git commit -qm "manifest after merging $G" 2>/dev/null || true
 python3 tools/fixhashes.py | tail -3
 git -C /repo status --short
